@@ -596,24 +596,37 @@ func (z *E6) Bytes() (r [SizeOfGT]byte) {
 }
 
 // SetBytes interprets e as the bytes of a big-endian GT
-// sets z to that value (in Montgomery form), and returns z.
+// sets z to that value (in Montgomery form).
+// It returns an error if a coefficient is not canonical (>= modulus).
 // z.C1.B2.A1 | z.C1.B2.A0 | z.C1.B1.A1 | ...
 func (z *E6) SetBytes(e []byte) error {
 	if len(e) != SizeOfGT {
 		return errors.New("invalid buffer size")
 	}
 	offset := 0
-	z.B1.A2.SetBytes(e[offset : offset+fp.Bytes])
+	if err := z.B1.A2.SetBytesCanonical(e[offset : offset+fp.Bytes]); err != nil {
+		return err
+	}
 	offset += fp.Bytes
-	z.B1.A1.SetBytes(e[offset : offset+fp.Bytes])
+	if err := z.B1.A1.SetBytesCanonical(e[offset : offset+fp.Bytes]); err != nil {
+		return err
+	}
 	offset += fp.Bytes
-	z.B1.A0.SetBytes(e[offset : offset+fp.Bytes])
+	if err := z.B1.A0.SetBytesCanonical(e[offset : offset+fp.Bytes]); err != nil {
+		return err
+	}
 	offset += fp.Bytes
-	z.B0.A2.SetBytes(e[offset : offset+fp.Bytes])
+	if err := z.B0.A2.SetBytesCanonical(e[offset : offset+fp.Bytes]); err != nil {
+		return err
+	}
 	offset += fp.Bytes
-	z.B0.A1.SetBytes(e[offset : offset+fp.Bytes])
+	if err := z.B0.A1.SetBytesCanonical(e[offset : offset+fp.Bytes]); err != nil {
+		return err
+	}
 	offset += fp.Bytes
-	z.B0.A0.SetBytes(e[offset : offset+fp.Bytes])
+	if err := z.B0.A0.SetBytesCanonical(e[offset : offset+fp.Bytes]); err != nil {
+		return err
+	}
 
 	return nil
 }
